@@ -19,7 +19,7 @@ def clean_case(r, k, G, acc, start, s, chk_kind, indel, heap):
         r.v(pre + ('does-not-return' if st == 'budget' else 'raised-%s' % type(res).__name__ if st == 'exc' else 'malformed-result'),
             'rep', case, '[strand]', repr(res)[:150])
         return
-    cands, stats = res
+    cands, stats = list(res[0]), res[1]
     exp = [] if chk_kind == 'wrong' else [s]
     if cands != exp:
         r.v(pre + ('clean-strand-altered-or-extra-candidates' if exp else 'candidates-despite-wrong-check'), 'rep', case, exp, cands[:6])
@@ -34,7 +34,7 @@ def any_case(r, k, G, acc, start, s, chk, indel, heap=1000):
     r.evals += 1
     if st != 'ok' or not RP.wellformed_result(res):
         return          # "whenever the repair returns": termination is C10's business
-    cands, stats = res
+    cands, stats = list(res[0]), res[1]
     pre = 'C09|any-input|'
     case = dict(RP.gcase(k, G), start=start, s=s, chk=chk, indel=indel, heap=heap, clean=False)
     path = 'fallback' if int(stats[2]) == 0 else 'product'
@@ -51,7 +51,7 @@ def any_case(r, k, G, acc, start, s, chk, indel, heap=1000):
     r.out.add((path, min(len(cands), 4), chk is not None))
 
 
-def check_graph(r, k, G, n, starts):
+def check_graph(r, k, G, n, starts, thin=99):
     acc = U.A(G)
     for start in starts:
         ws = [w for w in U.walks_upto(G, start, n) if len(w) >= k]
@@ -66,7 +66,7 @@ def check_graph(r, k, G, n, starts):
         for s in strings:
             chks = {None, O.vt(s, 3)}
             for e in U.single_edits(s):
-                if e[0] == 'S':
+                if e[0] == 'S' and len(s) < thin:
                     chks.add(O.vt(e[3], 3))
             for chk in sorted(chks, key=lambda x: (x is not None, x)):
                 for indel in (False, True):
@@ -92,7 +92,7 @@ def _w(chunk):
     for k, G, t in items:
         live = sorted(O.has_arcs(G))
         starts = list(range(4)) if k == 1 else (live if len(live) <= 16 else live[:8] + live[-8:])
-        check_graph(r, k, G, n_by_k[k], starts)
+        check_graph(r, k, G, n_by_k[k], starts, thin=4 if k == 1 else 99)
     k, G, t = items[-1]
     r.sample(dict(RP.gcase(k, G), what='every walk and every ACGT string of length %d..%d from the starts; checks absent/correct/wrong/neighbours' % (k, n_by_k[k])), 1)
     return r
@@ -103,7 +103,7 @@ def run(ctx):
     import dsw
     install([dsw.spiderweb, dsw.graphized, dsw.operation, dsw.biofilter])
     q = ctx.quick
-    n_by_k = {1: 3 if q else 5, 2: 4 if q else 6, 3: 4 if q else 6}
+    n_by_k = {1: 4 if q else 5, 2: 4 if q else 6, 3: 4 if q else 6}
     fam = RP.k1_generated() + RP.k1_arc_family()
     pairs = list(itertools.combinations(range(4), 2))
     fam2 = RP.binary_graphs(2, pairs[:1] if q else pairs[:3])
